@@ -367,6 +367,13 @@ fn node_of(db: &dyn Vd, k: NodeKey) -> (u8, u8) {
     *db.ctx().keymap.lock().unwrap().get(&k.as_id().as_bits()).expect("unknown NodeKey")
 }
 
+/// A second function keyed by the same input as the node functions: the memo table of a struct is
+/// shared by every function keyed by it and allocated by whichever stores its first memo.
+#[salsa::tracked]
+pub fn key_tag(db: &dyn Vd, k: NodeKey) -> u32 {
+    k.tag(db)
+}
+
 #[cfg_attr(feature = "persist", salsa::tracked(returns(clone), persist))]
 #[cfg_attr(not(feature = "persist"), salsa::tracked(returns(clone)))]
 pub fn plain<'db>(db: &'db dyn Vd, k: NodeKey) -> Out<'db> {
